@@ -83,11 +83,18 @@ def getDflt (name : Bytes) (m : Md) : Except Status (Option Obj) :=
   | none => .error .mdNotFound
   | some e => .ok e.dflt
 
+/-- some name occurs twice (only collections linked by `sbdf_tm_read` can be like that) -/
+def dupNames : List MdEntry → Bool
+  | [] => false
+  | e :: es => es.any (fun x => nameEq e.name x.name) || dupNames es
+
 /-- `sbdf_md_copy src dst`: all entries appended, or none -/
 def copy (src dst : Md) : Except Status Md :=
   if dst.modifiable = false then .error .mdReadonly
   else if src.entries.any (fun s => dst.entries.any (fun d => nameEq s.name d.name)) = true then
     .error .mdExists
+  -- repair F24: a source that repeats a name clashes with itself
+  else if dupNames src.entries = true then .error .mdExists
   else if src.entries.any (fun s => s.value.isNone) = true then .error .argNull
   else .ok { dst with entries := dst.entries ++ src.entries }
 
